@@ -666,6 +666,7 @@ func main() {
 	out := flag.String("out", "trace.ndjson", "")
 	only := flag.Int("only", -1, "run only this lookup index")
 	flag.Parse()
+	sim.Watchdog(180 * time.Second)
 	hangPath = *out + ".hang"
 	os.Remove(hangPath)
 	tr, err := sim.NewTrace(*out)
